@@ -875,18 +875,28 @@ class mulgrid(object):
 
     def column_name(self, blockname):
         """Returns column name of block name."""
-        if self.convention == 0: return blockname[0: 3]
-        elif self.convention == 1: return blockname[3: 5]
-        elif self.convention == 2: return blockname[2: 5]
-        elif self.convention == 3: return blockname[0: 3]
+        if self.convention in [0, 3]: return blockname[0: 3]
+        elif self.convention in [1, 2]:
+            start = [None, 3, 2][self.convention]
+            name = blockname[start: 5]
+            if name not in self.column:
+                # block_name() may have altered the name with fix_blockname():
+                unfixed = unfix_blockname(blockname)[start: 5]
+                if unfixed in self.column: name = unfixed
+            return name
         else: return None
 
     def layer_name(self, blockname):
         """Returns layer name of block name."""
-        if self.convention == 0: return blockname[3: 5]
+        if self.convention in [0, 3]:
+            name = blockname[3: 5]
+            if name not in self.layer:
+                # block_name() may have altered the name with fix_blockname():
+                unfixed = unfix_blockname(blockname)[3: 5]
+                if unfixed in self.layer: name = unfixed
+            return name
         elif self.convention == 1: return blockname[0: 3]
         elif self.convention == 2: return blockname[0: 2]
-        elif self.convention == 3: return blockname[3: 5]
         else: return None
 
     def node_col_name_from_number(self, num, justfn = str.rjust,
